@@ -12,6 +12,8 @@
 #include "world_builder/features/continental_plate_models/velocity/uniform_raw.h"
 #include "world_builder/features/continental_plate_models/composition/uniform.h"
 #include "world_builder/features/continental_plate_models/grains/uniform.h"
+#include "world_builder/features/oceanic_plate_models/grains/uniform.h"
+#include "world_builder/features/mantle_layer_models/grains/uniform.h"
 #include "world_builder/features/oceanic_plate_models/temperature/half_space_model.h"
 #include "world_builder/features/feature_utilities.h"
 #include "world_builder/coordinate_systems/spherical.h"
@@ -110,14 +112,14 @@ extern "C" void h_c12_composition(unsigned long nc, unsigned long nf)
 }
 
 // uniform grains: compositions / rotation matrices / grain sizes
-extern "C" void h_c12_grains(unsigned long nc, unsigned long nr, unsigned long ns)
+template <class M> static void grains_lengths(unsigned long nc, unsigned long nr, unsigned long ns)
 {
   World *w = make_world(0);
   prm.set_len("compositions", unsigned(nc)); prm.set_len("rotation matrices", unsigned(nr)); prm.set_len("Euler angles z-x-z", unsigned(nr)); prm.set_len("grain sizes", unsigned(ns));
   std::vector<Point<2>> coords(3, Point<2>(0, 0, cartesian));
-  bool threw = false; Features::ContinentalPlateModels::Grains::Uniform *m = nullptr;
+  bool threw = false; M *m = nullptr;
   bool both_or_neither = false;
-  try { m = new Features::ContinentalPlateModels::Grains::Uniform(w); m->parse_entries(w->parameters, coords); }
+  try { m = new M(w); m->parse_entries(w->parameters, coords); }
   catch (...) { threw = true; }
   if (nc == nr && nc == ns) sym_reach("consistent"); else sym_assert(threw, "uniform grains: lists of different lengths are rejected with an exception");
   (void) both_or_neither;
@@ -125,10 +127,17 @@ extern "C" void h_c12_grains(unsigned long nc, unsigned long nr, unsigned long n
     {
       const Point<3> pos(0, 0, 0, cartesian); const Objects::NaturalCoordinate nc_(pos, *w->parameters.coordinate_system);
       WorldBuilder::grains g; g.sizes.resize(1); g.rotation_matrices.resize(1);
-      try { (void) m->Features::ContinentalPlateModels::Grains::Uniform::get_grains(pos, nc_, sym_f64("depth"), sym_u32("number"), g, 0, 1); } catch (...) {}
+      try { (void) m->M::get_grains(pos, nc_, sym_f64("depth"), sym_u32("number"), g, 0, 1); } catch (...) {}
       sym_reach("queried");
     }
   sym_reach("end");
+}
+
+extern "C" void h_c12_grains(unsigned long nc, unsigned long nr, unsigned long ns, unsigned long family)
+{
+  if (family == 0) grains_lengths<Features::ContinentalPlateModels::Grains::Uniform>(nc, nr, ns);
+  else if (family == 1) grains_lengths<Features::OceanicPlateModels::Grains::Uniform>(nc, nr, ns);
+  else grains_lengths<Features::MantleLayerModels::Grains::Uniform>(nc, nr, ns);
 }
 
 // oceanic half-space model: one spreading velocity, or one per ridge point
